@@ -41,7 +41,7 @@ def run_sequence(case):
     old = signal.signal(signal.SIGALRM, _alarm)
     try:
         for call in range(case.get("calls", 3)):
-            signal.alarm(30)
+            signal.alarm(120)
             try:
                 with quiet():
                     out = sampler.sample(space, pts, losses)
@@ -104,7 +104,7 @@ def run_cell(cell):
         if info["raised"] and not vs:
             st[f"unjudged_exception_on_degenerate_history:{name}:{info['raised']}"] = st.get(f"unjudged_exception_on_degenerate_history:{name}:{info['raised']}", 0) + 1
         if info["raised"] == "timeout":
-            res.setdefault("caps_hit", []).append(f"{name} did not return within 30 s on a history (not judged)")
+            res.setdefault("caps_hit", []).append(f"{name} did not return within 120 s on a history (not judged)")
         for key, what in vs:
             key = f"{key}:{name}"
             if sum(1 for x in res["violations"] if x["key"] == key) < 1:
